@@ -171,6 +171,8 @@ def run(ctx):
         got_list = [norm(x) for x in le.elts] if isinstance(le, (ast.List, ast.Tuple)) else None
         if got_list is None and not verdicts and re.match(r'^(list\(reversed\(\w+\)\)|\w+|\w+\[::-1\])$', lt):
             got_list = []
+        if got_list is None:
+            raise AnalysisError('C11.3: cannot read the elements of the list _get_matching returns off `%s`' % lt[:80])
         ctx.check(got_list == want_list, 'C11.3', 'order:parity', f_get.loc(),
                   'the list returned is exactly the scanned messages the matcher accepted, oldest first',
                   'with verdicts %s (scan %s) the list returned is %s, expected %s' % ([v for _, _, v, _ in verdicts], 'newest first' if newest_first else 'oldest first', lt[:160], want_list))
@@ -190,7 +192,10 @@ def run(ctx):
             try:
                 return fold(deep_ast(sym), {}, texts)
             except (Unfoldable, SyntaxError) as ex_:
-                return 'unfoldable: %s' % ex_
+                if any(isinstance(x_, ast.Name) and x_.id in f_get.params() for x_ in ast.walk(deep_ast(sym))):
+                    return 'unfoldable: %s' % ex_       # the count depends on a parameter itself (the cap, say), not on what the scan saw: wrong
+                # a count written with something the term folder does not interpret (a deque, an iterator tool ..): the clause is undecided
+                raise AnalysisError('C11.5: cannot evaluate the count `%s` of _get_matching: %s' % (norm(sym)[:60], str(ex_)[:80]))
         n_yes = sum(1 for _, _, v, _ in verdicts if v)
         n_no = n_iter - n_yes
         ctx.check(num(matched) == n_yes, 'C11.5', 'counts:matched-is-len', f_get.loc(), 'the matched count is the number of messages returned',
@@ -221,6 +226,8 @@ def run(ctx):
                         universe=['cap0', 'cap', 'full', 'match0'], feasible=lambda F: not (F['cap0'] and F['cap']), first_only=True)
     # only paths that enter the loop are informative
     probs = [q for q in probs if any(e.kind == 'loop-iter' for e in q[0].events)]
+    from . import common as _cm11
+    _cm11.confirm_scenarios('C11.4', probs, m_cap, (r'^connection( is None)?$', r'^matcher\.matches\(<elem\d+ of .*>\)$', r'^cap (<|==) (?:len\(\w+\)|\d+)$', r'^(?:len\(\w+\)|\d+) == cap$'))
     ctx.check(not probs, 'C11.4', 'cap:stop-iff-full', f_get.loc(),
               'the scan stops right after the append that fills the cap; a cap of 0 or None never stops it',
               'scan stop reached=%s in scenario %s' % ((probs[0][2], probs[0][1]) if probs else ('', '')))
